@@ -185,7 +185,11 @@ func ints(xs []int) string {
 
 // neighbour classes that lie inside the wording of C07 (a divergence is reported); every other class is only
 // classified and counted (docs/http.md has the table).
-var insideWording = map[string]bool{}
+var insideWording = map[string]bool{
+	// RFC 7230 4.1.2/4.4: the Trailer field announces what MAY follow; nbhttp requires every announced trailer exactly
+	// once with a non-empty value and rejects everything else (known finding HTTP-TRAILER-STRICT)
+	"trailer-declared-missing": true, "trailer-empty-value": true, "trailer-undeclared": true, "trailer-sent-twice": true,
+}
 
 func exec(e *lp.Exec) {
 	lg := &hx.CapLogger{}
